@@ -70,6 +70,8 @@ type FlowOpts struct {
 	Returns    bool
 	Callers    func(*ssa.Function) []ssa.CallInstruction
 	Containers bool
+	Appends    bool // append(s, x) with a tracked x (or s) yields a tracked slice
+	ReturnsAll bool // tracked return values flow to every call site (no argument filter)
 }
 
 func (fo FlowOpts) Run(seeds []ssa.Value) map[ssa.Value]bool {
@@ -195,6 +197,11 @@ func (fo FlowOpts) Run(seeds []ssa.Value) map[ssa.Value]bool {
 					}
 				case ssa.CallInstruction:
 					com := r.Common()
+					if b, isB := com.Value.(*ssa.Builtin); isB && fo.Appends && b.Name() == "append" {
+						if v := r.Value(); v != nil {
+							add(v)
+						}
+					}
 					for _, callee := range idx.CalleesAt(r) {
 						if callee == nil || len(callee.Blocks) == 0 {
 							continue
@@ -228,7 +235,7 @@ func (fo FlowOpts) Run(seeds []ssa.Value) map[ssa.Value]bool {
 				}
 				for _, site := range fo.Callers(ret.Parent()) {
 					com := site.Common()
-					tracked := len(com.Args) == 0
+					tracked := len(com.Args) == 0 || fo.ReturnsAll
 					for _, a := range com.Args {
 						if T[a] {
 							tracked = true
